@@ -17,6 +17,18 @@ def guards():
     return findings.open_ids()
 
 
+def poke_observers(g, lo, hi):
+    """read-only queries at inhabited and uninhabited instants, issued before a comparison: whatever
+    they answer, they must not change what the graph reports afterwards (observer purity)"""
+    for t in (lo, (lo + hi) // 2, hi, hi + 3):
+        call(g.interactions_per_snapshots, t)
+        call(g.number_of_nodes, t)
+        call(g.size, t)
+        call(g.nodes, t)
+    call(g.interactions_per_snapshots)
+    call(g.temporal_snapshots_ids)
+
+
 def window(m, extra=()):
     ids = list(m.instants()) + [x for x in extra if x is not None]
     if not ids:
@@ -156,6 +168,9 @@ def c04(rep, lo, hi, counts=True):
             n += 1
             if st != 'ok' or r != m.count_at(t):
                 raise Violation('C04.counts', 'at-t', {'t': t, 'impl': repr(r), 'model': m.count_at(t)})
+    st, r = call(g.temporal_snapshots_ids)
+    if st != 'ok' or list(r) != ids:
+        raise Violation('C04.ids', 'ids-changed-by-a-query', {'impl': repr(r), 'model': ids})
     if ids:
         st, r = call(g.avg_number_of_nodes)
         exp = m.avg_nodes()
@@ -239,11 +254,7 @@ def c08(rep, lo, hi):
     g, m = rep.g, rep.m
     # read-only queries first: whatever they answer, they must not move the snapshot index (the
     # upper end of every accumulative presence) - so they are asked before presence is compared
-    call(g.interactions_per_snapshots)
-    for t in (lo, hi, hi + 3):
-        call(g.interactions_per_snapshots, t)
-        call(g.number_of_nodes, t)
-        call(g.size, t)
+    poke_observers(g, lo, hi)
     n = c01(rep, lo, hi)
     st, r = call(g.temporal_snapshots_ids)
     if st != 'ok' or list(r) != m.instants():
